@@ -7,7 +7,7 @@ from vlib.schema import D
 PROP = 'C11'
 VARIANTS = ['asan']
 HANG_IS_VIOLATION = True
-TITLES = ['a', 'b', 'web', 'two words', "it's", 'a|b', 'x=y', 'back\\slash', "'lead", 'tail\\', '', '0', '1', "q'|\\=", 'ü', 'A', '=', '|']
+TITLES = ["rock'", "a''", "x\\'", 'a', 'b', 'web', 'two words', "it's", 'a|b', 'x=y', 'back\\slash', "'lead", 'tail\\', '', '0', '1', "q'|\\=", 'ü', 'A', '=', '|']
 RULE = ('random trees (single / multi / multi+title sections nested to depth 3, titles containing | \' \\ = space and the empty title) x every option and '
         'section instance addressed by generated paths (each step unqualified / =index / =title / =\'quoted title\') x systematically broken variants '
         '(missing name, index out of range, unknown title, qualifier on a single section, unterminated / badly escaped quote, stray separator at either end, '
